@@ -140,10 +140,12 @@ func (d *Data) UnmarshalXML(dec *xml.Decoder, start xml.StartElement) error {
 			// re-allocating every time.
 			d.Data = make([]byte, decLen)
 		}
-		_, err = base64.StdEncoding.Decode(d.Data, v.Data)
+		n, err := base64.StdEncoding.Decode(d.Data, v.Data)
 		if err != nil {
 			return err
 		}
+		// DecodedLen is an upper bound that does not account for padding.
+		d.Data = d.Data[:n]
 	}
 	return nil
 }
